@@ -67,7 +67,7 @@ CHECKS = {
         "DESIGN.md section 6, C07", "TLA+ spec + TLC: equivalence classes computed by the spec; all-pairs replay"),
     "C08": mc(
         "Same groups: cmp/partial_cmp/hash for all pairs; Equal <=> same key; equal keys => equal hashes; total preorder decided "
-        "on the full matrix by a rank certificate; owned vs borrowed; every Borrow view hashes alike; HashSet/BTreeSet lookups.",
+        "on the full matrix by a rank certificate; owned vs borrowed; every Borrow view hashes alike; HashSet/BTreeSet lookups. Borrow<DataUrl> for DataUrlBuf (feature `data`) is held to the same contract on every data URL of the C18 model.",
         "DESIGN.md section 6, C08", "TLA+ spec + TLC: class keys from the spec; order/hash laws checked on the complete observed matrix"),
     "C09": mc(
         "All paths of bounded segment count over {'', a, ., .., b:c, %2e, e-acute}: TLC proves Rfc524 = stack walk on every absolute "
